@@ -1,4 +1,4 @@
-\* thorough: 2 clients (connect, answer pings or not, close, vanish; no messages), one worker, heartbeat on: ping rounds, pongs (timeouts of live and dead streams, dropped sockets)
+\* thorough: heartbeat on, one client x <= 2 messages + ping, pool of 2, echo replies: a client that talks in every ping round and answers its pings is never reaped
 CONSTANTS
   c1 = c1
   c2 = c2
@@ -6,12 +6,12 @@ CONSTANTS
   w1 = w1
   w2 = w2
   w3 = w3
-  Clients <- CS2
-  MaxMsgs = 0
-  MaxPings = 0
-  Workers <- WS1
+  Clients <- CS1
+  MaxMsgs = 2
+  MaxPings = 1
+  Workers <- WS2
   Heartbeat = TRUE
-  Reply <- ReplyNone
+  Reply <- ReplyUni
   ExtScript <- ExtNone
   Mode = "free"
   ShutdownMode = "any"
